@@ -259,8 +259,8 @@ def biased_family(draw):
         # a mapping-style argument whose key is not a keyword
         call['args'] = call['args'][:-1] + [{'raw': '1 => 2'}]
     fam = {'layers': layers, 'defs': defs}
-    if draw(st.booleans()):
-        fam['decl'] = 'signature'
+    fam['decl'] = draw(st.sampled_from(['assembled', 'signature',
+                                        'shared-callable']))
     return {'kind': 'family', 'shape': shape, 'family': fam, 'call': call}
 
 
